@@ -225,6 +225,12 @@ impl Hist {
         // the third token only makes the case text unique per history (the model ignores it)
         let line = format!("{} {k} h{}", if restart { "restart" } else { "cut" }, self.hist_no);
         self.n_files += 1;
+        if restart {
+            // a real restart: the process is gone — its connection is closed (an open transaction is rolled back)
+            // before the journal file is opened afresh
+            self.h = None;
+            self.twin = None;
+        }
         let dst = if restart { self.dir.join(format!("restart-{}.sqlite", self.n_files)) } else { self.dir.join("cut.sqlite") };
         if !cut_copy(&self.live, &dst, k) {
             rec.stat("skipped.cut-copy-failed");
@@ -337,7 +343,8 @@ fn exec(line: &str, hist: &mut Hist, rec: &mut Recorder) {
                 rec.stat("upd.after-restart");
                 rec.nontrivial(idx);
                 // behaves as if no restart had happened
-                if let Some(tw) = hist.twin.as_ref() {
+                // (the twin has no journal: a message with an unwritable row is not for it)
+                if let Some(tw) = hist.twin.as_ref().filter(|_| u.iter().all(c12::row_fits)) {
                     let (ts, tr) = c12::run_update(&hist.rt, tw, &p, &u);
                     let tsnap = c12::snapshot(&hist.rt, tw);
                     if ts != stage || tr != res {
@@ -351,15 +358,25 @@ fn exec(line: &str, hist: &mut Hist, rec: &mut Recorder) {
                 rec.fail(idx, "update panicked".to_string(), "");
             }
             let acked = stage == "apply" && res.starts_with("ok");
+            // an RR the journal's row encoder cannot take (> 65 535 octets; only the Rust API can hand one in)
+            let unfit = u.iter().any(|r| !c12::row_fits(r));
+            if unfit {
+                rec.stat("upd.with-unwritable-row");
+            }
+            if res == "ok1" && rows == prev_rows {
+                rec.fail(idx, "the update was acknowledged and changed the zone, but a new connection to the journal sees no new row".to_string(), "");
+            }
             if !acked && rows != prev_rows {
                 // a refused update must leave no trace: these rows would be replayed by the next start
                 rec.fail(idx, format!("the update was refused ({stage}/{res}) but left {} row(s) in the journal", rows.saturating_sub(prev_rows)), "");
             }
-            if stage == "apply" && !res.starts_with("ok") && res != "panic" {
+            if stage == "apply" && !res.starts_with("ok") && res != "panic" && !unfit {
                 // the rows of this message are in the journal already (write-ahead): replay will meet the same error
                 rec.fail(idx, format!("update_records answered {res} after pre_scan had accepted the update section; its rows are already journalled"), "");
             }
-            hist.msgs.push((p, u));
+            if !(unfit && !acked) {
+                hist.msgs.push((p, u));
+            }
             let n_msgs = hist.msgs.len();
             hist.boundaries.push(Boundary { rows, snap: after, n_msgs, acked });
         }
@@ -406,9 +423,18 @@ fn gen_msg(rng: &mut Rng) -> String {
     m
 }
 
-/// every fourth history starts one or two bumps before the serial wraps
+/// every fourth history starts one or two bumps before the serial wraps; every fifth zone also holds a random choice of
+/// the records of `every_type_zone` / `out_of_zone_zone`
 fn gen_begin(rng: &mut Rng) -> String {
-    let b = c12::gen_begin(rng, "beginj");
+    let mut b = c12::gen_begin(rng, "beginj");
+    if rng.chance(1, 5) {
+        let pool: Vec<String> = every_type_zone().into_iter().chain(out_of_zone_zone()).filter(|t| !t.contains(",6,1,") && !t.contains(",5,1,")).collect();
+        for _ in 0..rng.range(1, 8) {
+            b.push(' ');
+            let t: &String = rng.pick(&pool[..]);
+            b.push_str(t);
+        }
+    }
     if rng.chance(1, 4) {
         if let (Some(i), Some(j)) = (b.find(",s"), b.find(".0 ")) {
             let serial = *rng.pick(&[4294967295u32, 4294967294, 4294967293]);
@@ -466,6 +492,84 @@ fn directed_large() -> Vec<Vec<String>> {
     out
 }
 
+fn tok(name: &str, t: u16, c: u16, ttl: u32, rd: &str) -> String {
+    format!("{},{t},{c},{ttl},{rd}", name_tok(&Name::from_ascii(name).unwrap()))
+}
+
+const NS1: &str = "x036e7331076578616d706c6503636f6d00";
+
+/// records a zone file / the API may hold besides the usual ones: every record type (DNSSEC types included) at a host,
+/// at the apex and at a wildcard, DS at a delegation, names below the delegation
+fn every_type_zone() -> Vec<String> {
+    let mut v = vec![tok("example.com.", 6, 1, 3600, "s100.0"), tok("example.com.", 2, 1, 3600, NS1)];
+    v.extend(c12::usable_types("a.example.com."));
+    v.extend(c12::usable_types("example.com."));
+    v.extend(c12::usable_types("*.w.example.com.").into_iter().take(6));
+    v.push(tok("sub.example.com.", 2, 1, 300, "x026e7303737562076578616d706c6503636f6d00"));
+    v.extend(c12::usable_types("sub.example.com.").into_iter().filter(|t| t.contains(",43,") || t.contains(",47,")));
+    v.push(tok("ns.sub.example.com.", 1, 1, 300, "x0a000009"));
+    v.push(tok("deep.x.sub.example.com.", 16, 1, 300, "x027478"));
+    v
+}
+
+/// what the zone loader accepts and `pre_scan` would refuse in an UPDATE: out-of-zone owners (glue of an out-of-zone name
+/// server, stray records, the parent), wildcards, names at / below a delegation
+fn out_of_zone_zone() -> Vec<String> {
+    vec![
+        tok("example.com.", 6, 1, 3600, "s100.0"),
+        tok("example.com.", 2, 1, 3600, "x026e73076578616d706c65036e657400"), // @ NS ns.example.net.
+        tok("ns.example.net.", 1, 1, 300, "xc6336435"),                      // its glue
+        tok("example.net.", 15, 1, 300, "x000a046d61696c076578616d706c65036e657400"),
+        tok("other.org.", 16, 1, 300, "x027478"),
+        tok("com.", 2, 1, 300, "x01610c67746c642d73657276657273036e657400"),
+        tok("a.example.com.", 1, 1, 300, "x0a000001"),
+        tok("*.example.com.", 1, 1, 300, "x0a000007"),
+        tok("sub.example.com.", 2, 1, 300, "x026e7303737562076578616d706c6503636f6d00"),
+        tok("*.sub.example.com.", 16, 1, 300, "x027478"),
+        tok("ns.sub.example.com.", 1, 1, 300, "x0a000009"),
+        tok("EXAMPLE.ORG.", 28, 1, 300, "x20010db8000000000000000000000005"),
+    ]
+}
+
+/// Directed histories (both tiers): zones with every record type / with out-of-zone and delegated owners survive
+/// start → update → stop → start; a row that cannot be written (first RR of an update) followed by acknowledged updates.
+fn directed_zones() -> Vec<Vec<String>> {
+    let origin = name_tok(&Name::from_ascii("example.com.").unwrap());
+    let small = |l: &str, i: u8| tok(&format!("{l}.example.com."), 1, 1, 300, &format!("x0a0000{i:02x}"));
+    let mut out = vec![];
+    for zone in [every_type_zone(), out_of_zone_zone()] {
+        out.push(vec![
+            format!("beginj {origin} {}", zone.join(" ")),
+            format!("upd P U {} {}", small("b", 2), tok("a.example.com.", 43, 255, 0, "-")),
+            format!("upd P U {}", tok("a.example.com.", 16, 254, 0, "x027478")),
+            "cutall".into(),
+            "restartb 0".into(),
+            format!("upd P U {} {}", small("c", 3), tok("sub.example.com.", 255, 255, 0, "-")),
+            "cutall".into(),
+            "restartb 0".into(),
+            "end".into(),
+        ]);
+    }
+    // a failing journal row (an RR of 65 535 octets of RDATA, first of its update: SERVFAIL, no trace), then business as usual
+    let huge = tok("b.example.com.", c12::T_TXT, 1, 300, &c12::large_rdata_tok(c12::T_TXT, 65535));
+    let base = vec![tok("example.com.", 6, 1, 3600, "s100.0"), tok("example.com.", 2, 1, 3600, NS1), tok("a.example.com.", 1, 1, 300, "x0a000001")];
+    out.push(vec![
+        format!("beginj {origin} {}", base.join(" ")),
+        format!("upd P U {}", small("b", 2)),
+        format!("upd P U {huge} {}", small("c", 3)),
+        format!("upd P U {}", small("d", 4)),
+        format!("upd P U {} {}", small("e", 5), tok("b.example.com.", 1, 254, 0, "x0a000002")),
+        "cutall".into(),
+        "restartb 0".into(),
+        format!("upd P U {huge}"),
+        format!("upd P U {}", small("f", 6)),
+        "cutall".into(),
+        "restartb 0".into(),
+        "end".into(),
+    ]);
+    out
+}
+
 fn gen_history(rng: &mut Rng) -> Vec<String> {
     let mut v = vec![gen_begin(rng)];
     for _ in 0..rng.range(1, 6) {
@@ -485,6 +589,8 @@ fn gen_history(rng: &mut Rng) -> Vec<String> {
             v.push("cutall".into());
         }
     }
+    // … and with a real restart (connection closed, file opened afresh), whatever came before
+    v.push("restartb 0".into());
     v.push("end".into());
     v
 }
@@ -511,7 +617,7 @@ pub fn run(o: &Opts, rec: &mut Recorder) {
     rec.corpus_cases = rec.cases.len();
     c12::GIANTS.store(o.thorough(), std::sync::atomic::Ordering::Relaxed);
     if !o.replay_only {
-        for h in directed_large() {
+        for h in directed_zones().into_iter().chain(directed_large()) {
             for l in h {
                 exec(&l, &mut hist, rec);
             }
